@@ -14,8 +14,25 @@ fn ser<T: BinarySerializer>(v: &T) -> Call<Vec<u8>> {
     monitored(None, || desert::serialize_to_byte_vec(v).map_err(|e| classify(&e))).0
 }
 
+/// decode through an explicit context with two sentinel bytes behind the data: a target container that leaves part of
+/// the sequence unread (a terminator, an element) or reads past it is told from one that takes exactly the sequence
 fn de<T: BinaryDeserializer + Model>(bytes: &[u8]) -> Call<Val> {
-    monitored(None, || -> Result<Val, ErrClass> { desert::deserialize::<T>(bytes).map(|v| v.to_val()).map_err(|e| classify(&e)) }).0
+    let mut buf = Vec::with_capacity(bytes.len() + 2);
+    buf.extend_from_slice(bytes);
+    buf.extend_from_slice(&[0xA5, 0x5A]);
+    monitored(None, || -> Result<Val, ErrClass> {
+        let mut ctx = desert::DeserializationContext::new(&buf);
+        let v = T::deserialize(&mut ctx).map_err(|e| classify(&e))?;
+        let mut rest = 0usize;
+        while desert::BinaryInput::read_u8(&mut ctx).is_ok() && rest <= buf.len() {
+            rest += 1;
+        }
+        if rest != 2 {
+            return Err(ErrClass { variant: "sequence_not_consumed_exactly", payload: format!("{rest} bytes left, 2 follow the sequence") });
+        }
+        Ok(v.to_val())
+    })
+    .0
 }
 
 fn sorted(v: &Val) -> Val {
